@@ -1,5 +1,17 @@
 //! simcheck – deterministic-simulation checks for matttpt/quandary.
 #![allow(clippy::type_complexity)]
+#[allow(dead_code, unused_imports, clippy::all)]
+#[path = "../../repo/src/bin/quandaryd/args.rs"]
+mod args;
+#[allow(dead_code, unused_imports, clippy::all)]
+#[path = "../../repo/src/bin/quandaryd/config.rs"]
+mod config;
+#[allow(dead_code, unused_imports, clippy::all)]
+#[path = "../../repo/src/bin/quandaryd/run.rs"]
+mod run;
+#[allow(dead_code, unused_imports, clippy::all)]
+#[path = "../../repo/src/bin/quandaryd/zones.rs"]
+mod zones;
 mod driver;
 mod props;
 mod qz;
@@ -40,6 +52,7 @@ macro_rules! dispatch {
             "C28" => Some(driver::$f::<props::c28::C28>($($a),*)),
             "C29" => Some(driver::$f::<props::c29::C29>($($a),*)),
             "C30" => Some(driver::$f::<props::c30::C30>($($a),*)),
+            "C31" => Some(driver::$f::<props::c31::C31>($($a),*)),
             "C32" => Some(driver::$f::<props::c32::C32>($($a),*)),
             _ => None,
         }
@@ -51,6 +64,9 @@ fn main() {
     if args.len() < 2 {
         eprintln!("usage: simcheck check <ID> [--tier quick|thorough] [--seed N] [--workers N] [--runs N] | replay <file> | digest <ID> ...");
         std::process::exit(2);
+    }
+    if std::env::var_os("RUST_LOG").is_some() {
+        let _ = env_logger::try_init();
     }
     util::init_quiet_panics();
     let tier = match arg_value(&args, "--tier").or_else(|| std::env::var("VERIF_TIER").ok()).as_deref() {
